@@ -435,7 +435,7 @@ pub fn run(args: &Args, report: &mut Report) {
         return;
     }
     let mut cases = vec![];
-    let reps = report.size(3, 24);
+    let reps = report.size(3, 500);
     let mut rng = HRng::new(args.seed ^ 0xC16);
     for &preset in ALL_PRESETS.iter() {
         for flags in 0..32u32 {
